@@ -4,6 +4,7 @@
 import Irc.Config
 import Irc.HConn
 import Irc.HChannel
+import Irc.Lemmas.Frame
 
 namespace Irc.C20
 open Irc Irc.Config
@@ -153,5 +154,470 @@ theorem loadConfig_cases (cli : CliOpts) (file : RawConfig) :
       · right; right; left; simp [hv, hn]
       · right; right; right; simp [hv, hn]
   · left; simp
+
+/-! ## unpadded base64 -/
+
+theorem b64val_b64char : ∀ v, v < 64 → b64val (b64char v) = some v := by decide
+
+theorem b64val_lt {c : Char} {v : Nat} (h : b64val c = some v) : v < 64 := by
+  unfold b64val at h
+  simp only at h
+  repeat' split at h
+  all_goals first | (injection h with h; omega) | cases h
+
+theorem b64char_b64val {c : Char} {v : Nat} (h : b64val c = some v) : b64char v = c := by
+  unfold b64val at h
+  simp only at h
+  repeat' split at h
+  · injection h with h
+    have h1 : v < 26 := by omega
+    have h2 : 65 + v = c.toNat := by omega
+    simp only [b64char, h1, if_true, h2, Char.ofNat_toNat]
+  · injection h with h
+    have h1 : ¬ v < 26 := by omega
+    have h1' : v < 52 := by omega
+    have h2 : 71 + v = c.toNat := by omega
+    simp only [b64char, h1, h1', if_true, if_false, h2, Char.ofNat_toNat]
+  · injection h with h
+    have h1 : ¬ v < 26 := by omega
+    have h1' : ¬ v < 52 := by omega
+    have h1'' : v < 62 := by omega
+    have h2 : v - 4 = c.toNat := by omega
+    simp only [b64char, h1, h1', h1'', if_true, if_false, h2, Char.ofNat_toNat]
+  · injection h with h
+    subst h
+    rename_i h43
+    have : c = '+' := Char.toNat_inj.mp (by rw [h43]; rfl)
+    subst this; rfl
+  · injection h with h
+    subst h
+    rename_i h47
+    have : c = '/' := Char.toNat_inj.mp (by rw [h47]; rfl)
+    subst this; rfl
+  · cases h
+
+/-- the alphabet, in words: `A-Z`, `a-z`, `0-9`, `+`, `/`. -/
+def B64Alphabet (c : Char) : Prop :=
+  ('A' ≤ c ∧ c ≤ 'Z') ∨ ('a' ≤ c ∧ c ≤ 'z') ∨ ('0' ≤ c ∧ c ≤ '9') ∨ c = '+' ∨ c = '/'
+
+theorem char_le_iff (a b : Char) : a ≤ b ↔ a.toNat ≤ b.toNat := by
+  rw [Char.le_def, UInt32.le_iff_toNat_le]; rfl
+
+theorem isB64Char_iff (c : Char) : isB64Char c = true ↔ B64Alphabet c := by
+  unfold isB64Char b64val B64Alphabet
+  simp only [char_le_iff, ← Char.toNat_inj]
+  have e1 : 'A'.toNat = 65 := rfl
+  have e2 : 'Z'.toNat = 90 := rfl
+  have e3 : 'a'.toNat = 97 := rfl
+  have e4 : 'z'.toNat = 122 := rfl
+  have e5 : '0'.toNat = 48 := rfl
+  have e6 : '9'.toNat = 57 := rfl
+  have e7 : '+'.toNat = 43 := rfl
+  have e8 : '/'.toNat = 47 := rfl
+  rw [e1, e2, e3, e4, e5, e6, e7, e8]
+  repeat' split
+  all_goals simp
+  all_goals omega
+
+theorem lastCanonical_iff (s : Str) :
+    lastCanonical s = true ↔ ∃ c, s.getLast? = some c ∧ (b64val c).getD 1 % 16 = 0 := by
+  fun_induction lastCanonical s with
+  | case1 => simp
+  | case2 c => simp
+  | case3 x c cs ih => rw [ih]; simp [List.getLast?_cons_cons]
+
+theorem canonical_last_char (c : Char) :
+    (b64val c).getD 1 % 16 = 0 ↔ c = 'A' ∨ c = 'Q' ∨ c = 'g' ∨ c = 'w' := by
+  constructor
+  · intro h
+    cases hv : b64val c with
+    | none => simp [hv] at h
+    | some v =>
+      simp only [hv, Option.getD_some] at h
+      have hlt := b64val_lt hv
+      have hc := b64char_b64val hv
+      have : v = 0 ∨ v = 16 ∨ v = 32 ∨ v = 48 := by omega
+      rcases this with rfl | rfl | rfl | rfl
+      · left; exact hc.symm
+      · right; left; exact hc.symm
+      · right; right; left; exact hc.symm
+      · right; right; right; exact hc.symm
+  · rintro (rfl | rfl | rfl | rfl) <;> decide
+
+theorem lastCanonical_cons (x : Char) (l : Str) (h : l ≠ []) :
+    lastCanonical (x :: l) = lastCanonical l := by
+  cases l with
+  | nil => exact absurd rfl h
+  | cons y ys => rfl
+
+/-! ### encoder -/
+
+theorem b64encode_ne_nil (bs : List Nat) (h : bs ≠ []) : b64encode bs ≠ [] := by
+  fun_cases b64encode bs <;> simp_all
+
+theorem b64encode_length (bs : List Nat) :
+    (b64encode bs).length = (4 * bs.length + 2) / 3 := by
+  fun_induction b64encode bs with
+  | case1 => simp
+  | case2 b0 => simp
+  | case3 b0 b1 => simp
+  | case4 b0 b1 b2 rest ih =>
+    simp only [List.length_cons, ih]
+    omega
+
+theorem b64encode_all (bs : List Nat) (h : ∀ b ∈ bs, b < 256) :
+    ∀ c ∈ b64encode bs, isB64Char c = true := by
+  fun_induction b64encode bs with
+  | case1 => simp
+  | case2 b0 =>
+    have h0 : b0 < 256 := h b0 (by simp)
+    intro c hc
+    simp only [List.mem_cons, List.not_mem_nil, or_false] at hc
+    rcases hc with rfl | rfl <;> (unfold isB64Char; rw [b64val_b64char _ (by omega)]; rfl)
+  | case3 b0 b1 =>
+    have h0 : b0 < 256 := h b0 (by simp)
+    have h1 : b1 < 256 := h b1 (by simp)
+    intro c hc
+    simp only [List.mem_cons, List.not_mem_nil, or_false] at hc
+    rcases hc with rfl | rfl | rfl <;> (unfold isB64Char; rw [b64val_b64char _ (by omega)]; rfl)
+  | case4 b0 b1 b2 rest ih =>
+    have h0 : b0 < 256 := h b0 (by simp)
+    have h1 : b1 < 256 := h b1 (by simp)
+    have h2 : b2 < 256 := h b2 (by simp)
+    intro c hc
+    simp only [List.mem_cons] at hc
+    rcases hc with rfl | rfl | rfl | rfl | hc
+    · unfold isB64Char; rw [b64val_b64char _ (by omega)]; rfl
+    · unfold isB64Char; rw [b64val_b64char _ (by omega)]; rfl
+    · unfold isB64Char; rw [b64val_b64char _ (by omega)]; rfl
+    · unfold isB64Char; rw [b64val_b64char _ (by omega)]; rfl
+    · exact ih (fun b hb => h b (by simp [hb])) c hc
+
+theorem b64encode_lastCanonical (bs : List Nat) (h : ∀ b ∈ bs, b < 256)
+    (hl : bs.length % 3 = 1) : lastCanonical (b64encode bs) = true := by
+  fun_induction b64encode bs with
+  | case1 => simp at hl
+  | case2 b0 =>
+    have h0 : b0 < 256 := h b0 (by simp)
+    simp only [lastCanonical]
+    rw [b64val_b64char _ (by omega)]
+    simp only [Option.getD_some, beq_iff_eq]
+    omega
+  | case3 b0 b1 => simp at hl
+  | case4 b0 b1 b2 rest ih =>
+    have hr : rest ≠ [] := by
+      intro e; subst e; simp at hl
+    have hne := b64encode_ne_nil rest hr
+    rw [lastCanonical_cons _ _ (by simp), lastCanonical_cons _ _ (by simp),
+      lastCanonical_cons _ _ (by simp), lastCanonical_cons _ _ hne]
+    apply ih (fun b hb => h b (by simp [hb]))
+    simp only [List.length_cons] at hl
+    omega
+
+/-! ### decoder -/
+
+theorem b64decode_b64encode (bs : List Nat) (h : ∀ b ∈ bs, b < 256) :
+    b64decode (b64encode bs) = some bs := by
+  fun_induction b64encode bs with
+  | case1 => rfl
+  | case2 b0 =>
+    have h0 : b0 < 256 := h b0 (by simp)
+    simp only [b64decode]
+    rw [b64val_b64char _ (by omega), b64val_b64char _ (by omega)]
+    have : b0 % 4 * 16 % 16 = 0 := by omega
+    simp only [this, if_true, Option.some.injEq, List.cons.injEq, and_true]
+    omega
+  | case3 b0 b1 =>
+    have h0 : b0 < 256 := h b0 (by simp)
+    have h1 : b1 < 256 := h b1 (by simp)
+    simp only [b64decode]
+    rw [b64val_b64char _ (by omega), b64val_b64char _ (by omega), b64val_b64char _ (by omega)]
+    have : b1 % 16 * 4 % 4 = 0 := by omega
+    simp only [this, if_true, Option.some.injEq, List.cons.injEq, and_true]
+    omega
+  | case4 b0 b1 b2 rest ih =>
+    have h0 : b0 < 256 := h b0 (by simp)
+    have h1 : b1 < 256 := h b1 (by simp)
+    have h2 : b2 < 256 := h b2 (by simp)
+    simp only [b64decode]
+    rw [b64val_b64char _ (by omega), b64val_b64char _ (by omega), b64val_b64char _ (by omega),
+      b64val_b64char _ (by omega), ih (fun b hb => h b (by simp [hb]))]
+    simp only [Option.some.injEq, List.cons.injEq, and_true]
+    omega
+
+theorem b64encode_b64decode (s : Str) (bs : List Nat) (h : b64decode s = some bs) :
+    b64encode bs = s ∧ ∀ b ∈ bs, b < 256 := by
+  fun_induction b64decode s generalizing bs with
+  | case1 => cases h; simp [b64encode]
+  | case2 c => cases h
+  | case3 c0 c1 v0 v1 e1 e0 hc =>
+    cases h
+    have l0 := b64val_lt e0; have l1 := b64val_lt e1
+    refine ⟨?_, by simp; omega⟩
+    simp only [b64encode]
+    have a0 : (v0 * 4 + v1 / 16) / 4 = v0 := by omega
+    have a1 : (v0 * 4 + v1 / 16) % 4 * 16 = v1 := by omega
+    rw [a0, a1, b64char_b64val e0, b64char_b64val e1]
+  | case4 c0 c1 v0 v1 e0 e1 hc => cases h
+  | case5 c0 c1 hn => cases h
+  | case6 c0 c1 c2 v0 v1 v2 e2 e1 e0 hc =>
+    cases h
+    have l0 := b64val_lt e0; have l1 := b64val_lt e1; have l2 := b64val_lt e2
+    refine ⟨?_, by simp; omega⟩
+    simp only [b64encode]
+    have a0 : (v0 * 4 + v1 / 16) / 4 = v0 := by omega
+    have a1 : (v0 * 4 + v1 / 16) % 4 * 16 + (v1 % 16 * 16 + v2 / 4) / 16 = v1 := by omega
+    have a2 : (v1 % 16 * 16 + v2 / 4) % 16 * 4 = v2 := by omega
+    rw [a0, a1, a2, b64char_b64val e0, b64char_b64val e1, b64char_b64val e2]
+  | case7 c0 c1 c2 v0 v1 v2 e0 e1 e2 hc => cases h
+  | case8 c0 c1 c2 hn => cases h
+  | case9 c0 c1 c2 c3 rest v0 v1 v2 v3 bs' er e3 e2 e1 e0 ih =>
+    cases h
+    have l0 := b64val_lt e0; have l1 := b64val_lt e1; have l2 := b64val_lt e2
+    have l3 := b64val_lt e3
+    obtain ⟨ihe, ihb⟩ := ih bs' er
+    refine ⟨?_, ?_⟩
+    · simp only [b64encode]
+      have a0 : (v0 * 4 + v1 / 16) / 4 = v0 := by omega
+      have a1 : (v0 * 4 + v1 / 16) % 4 * 16 + (v1 % 16 * 16 + v2 / 4) / 16 = v1 := by omega
+      have a2 : (v1 % 16 * 16 + v2 / 4) % 16 * 4 + (v2 % 4 * 64 + v3) / 64 = v2 := by omega
+      have a3 : (v2 % 4 * 64 + v3) % 64 = v3 := by omega
+      rw [a0, a1, a2, a3, b64char_b64val e0, b64char_b64val e1, b64char_b64val e2,
+        b64char_b64val e3, ihe]
+    · intro b hb
+      simp only [List.mem_cons] at hb
+      rcases hb with rfl | rfl | rfl | hb
+      · omega
+      · omega
+      · omega
+      · exact ihb b hb
+  | case10 c0 c1 c2 c3 rest hn => cases h
+
+theorem b64decode_isSome (s : Str) (ha : ∀ c ∈ s, isB64Char c = true)
+    (hc : lastCanonical s = true) (hl : s.length % 4 = 2) : ∃ bs, b64decode s = some bs := by
+  induction s using b64decode.induct with
+  | case1 => simp at hl
+  | case2 c => simp at hl
+  | case3 c0 c1 v0 v1 e1 e0 hc' => simp [b64decode, e0, e1, hc']
+  | case4 c0 c1 v0 v1 e1 e0 hc' =>
+    exfalso
+    simp [lastCanonical, e1] at hc
+    exact hc' hc
+  | case5 c0 c1 hn =>
+    exfalso
+    have h0 := ha c0 (by simp); have h1 := ha c1 (by simp)
+    obtain ⟨v0, e0⟩ := Option.isSome_iff_exists.mp h0
+    obtain ⟨v1, e1⟩ := Option.isSome_iff_exists.mp h1
+    exact hn v0 v1 e0 e1
+  | case6 => simp at hl
+  | case7 => simp at hl
+  | case8 => simp at hl
+  | case9 c0 c1 c2 c3 rest v0 v1 v2 v3 bs' er e3 e2 e1 e0 ih =>
+    simp [b64decode, e0, e1, e2, e3, er]
+  | case10 c0 c1 c2 c3 rest hn ih =>
+    exfalso
+    have h0 := ha c0 (by simp); have h1 := ha c1 (by simp)
+    have h2 := ha c2 (by simp); have h3 := ha c3 (by simp)
+    have hr : rest ≠ [] := by intro e; subst e; simp at hl
+    have hcr : lastCanonical rest = true := by
+      rw [lastCanonical_cons _ _ (by simp), lastCanonical_cons _ _ (by simp),
+        lastCanonical_cons _ _ (by simp), lastCanonical_cons _ _ hr] at hc
+      exact hc
+    obtain ⟨bs, hbs⟩ := ih (fun c hc => ha c (by simp [hc])) hcr
+      (by simp only [List.length_cons] at hl; omega)
+    obtain ⟨v0, e0⟩ := Option.isSome_iff_exists.mp h0
+    obtain ⟨v1, e1⟩ := Option.isSome_iff_exists.mp h1
+    obtain ⟨v2, e2⟩ := Option.isSome_iff_exists.mp h2
+    obtain ⟨v3, e3⟩ := Option.isSome_iff_exists.mp h3
+    exact hn v0 v1 v2 v3 bs e0 e1 e2 e3 hbs
+
+/-! ## the welcome burst, line by line -/
+
+open Reply
+
+/-- `feed_msg`: what `Ctx.reply cfg t` appends to the connection's own output. -/
+def serverLine (cfg : Cfg) (t : Str) : Str := ':' :: (cfg.name ++ ' ' :: t)
+
+theorem foldl_reply_direct {α : Type} (cfg : Cfg) (f : α → Str) (l : List α) (x : Ctx) :
+    (l.foldl (fun x a => x.reply cfg (f a)) x).direct =
+      x.direct ++ l.map (fun a => serverLine cfg (f a)) := by
+  induction l generalizing x with
+  | nil => simp
+  | cons a as ih => simp [ih, serverLine]
+
+theorem foldl_reply_w {α : Type} (cfg : Cfg) (f : α → Str) (l : List α) (x : Ctx) :
+    (l.foldl (fun x a => x.reply cfg (f a)) x).w = x.w := by
+  induction l generalizing x with
+  | nil => rfl
+  | cons a as ih => simp [ih]
+
+theorem sendIsupport_direct (cfg : Cfg) (client : Str) (x : Ctx) :
+    (sendIsupport cfg client x).direct = x.direct ++
+      (chunks 10 (sortStrs (supportTokens cfg))).map
+        (fun toks => serverLine cfg (RplISupport005 client (joinWith [' '] toks))) :=
+  foldl_reply_direct cfg _ _ x
+
+theorem sendIsupport_w (cfg : Cfg) (client : Str) (x : Ctx) :
+    (sendIsupport cfg client x).w = x.w := foldl_reply_w cfg _ _ x
+
+/-- the seven LUSERS lines (numbers taken from the world `w`). -/
+def lusersLines (cfg : Cfg) (client : Str) (w : World) : List Str :=
+  [serverLine cfg (RplLUserClient251 client (w.users.length - w.invisibleCount) w.invisibleCount 1),
+   serverLine cfg (RplLUserOp252 client w.operatorsCount),
+   serverLine cfg (RplLUserUnknown253 client 0),
+   serverLine cfg (RplLUserChannels254 client w.channels.length),
+   serverLine cfg (RplLUserMe255 client w.users.length 1),
+   serverLine cfg (RplLocalUsers265 client w.users.length w.maxUsers),
+   serverLine cfg (RplGlobalUsers266 client w.users.length w.maxUsers)]
+
+theorem processLusers_direct (cfg : Cfg) (client : Str) (x : Ctx) :
+    (processLusers cfg client x).direct = x.direct ++ lusersLines cfg client x.w := by
+  unfold processLusers lusersLines serverLine
+  by_cases h : x.w.invisibleCount > x.w.users.length <;> simp [h]
+
+theorem processLusers_users (cfg : Cfg) (client : Str) (x : Ctx) :
+    (processLusers cfg client x).w.users = x.w.users := by
+  unfold processLusers
+  by_cases h : x.w.invisibleCount > x.w.users.length <;> simp [h]
+
+theorem processMotd_none_direct (cfg : Cfg) (client : Str) (x : Ctx) :
+    (processMotd cfg client none x).direct = x.direct ++
+      [serverLine cfg (RplMotdStart375 client cfg.name), serverLine cfg (RplMotd372 client cfg.motd),
+       serverLine cfg (RplEndOfMotd376 client)] := by
+  simp [processMotd, serverLine]
+
+theorem processMotd_none_w (cfg : Cfg) (client : Str) (x : Ctx) :
+    (processMotd cfg client none x).w = x.w := by
+  simp [processMotd]
+
+/-- The complete text of the welcome burst. -/
+theorem welcomeBurst_direct (cfg : Cfg) (cn : Conn) (m : Str) (x : Ctx) :
+    (welcomeBurst cfg cn m x).direct = x.direct ++
+      [serverLine cfg (RplWelcome001 cn.clientName cfg.network (cn.nick.getD []) (cn.name.getD [])
+          cn.hostname),
+       serverLine cfg (RplYourHost002 cn.clientName cfg.name pkgDash),
+       serverLine cfg (RplCreated003 cn.clientName (str "DATE")),
+       serverLine cfg (RplMyInfo004 cn.clientName cfg.name pkgDash (str "Oiorw")
+          (str "Iabehiklmnopqstv") none)] ++
+      (chunks 10 (sortStrs (supportTokens cfg))).map
+        (fun toks => serverLine cfg (RplISupport005 cn.clientName (joinWith [' '] toks))) ++
+      lusersLines cfg cn.clientName x.w ++
+      [serverLine cfg (RplMotdStart375 cn.clientName cfg.name),
+       serverLine cfg (RplMotd372 cn.clientName cfg.motd),
+       serverLine cfg (RplEndOfMotd376 cn.clientName),
+       serverLine cfg (RplUModeIs221 cn.clientName m)] := by
+  unfold welcomeBurst
+  simp only [Ctx.reply_direct, processMotd_none_direct, processLusers_direct, sendIsupport_direct,
+    sendIsupport_w, Ctx.reply_w, serverLine, List.append_assoc, List.cons_append, List.nil_append]
+
+theorem welcomeBurst_users (cfg : Cfg) (cn : Conn) (m : Str) (x : Ctx) :
+    (welcomeBurst cfg cn m x).w.users = x.w.users := by
+  unfold welcomeBurst
+  simp only [Ctx.reply_w, processMotd_none_w, processLusers_users, sendIsupport_w]
+
+/-! ### every ISUPPORT token is in one of the 005 lines -/
+
+theorem mem_insertSorted (t x : Str) (l : List Str) : t ∈ insertSorted x l ↔ t = x ∨ t ∈ l := by
+  induction l with
+  | nil => simp [insertSorted]
+  | cons y ys ih =>
+    unfold insertSorted
+    split
+    · simp
+    · simp only [List.mem_cons, ih]
+      constructor
+      · rintro (h | h | h) <;> simp [h]
+      · rintro (h | h | h) <;> simp [h]
+
+theorem mem_sortStrs (t : Str) (l : List Str) : t ∈ sortStrs l ↔ t ∈ l := by
+  unfold sortStrs
+  induction l with
+  | nil => simp
+  | cons y ys ih => simp [List.foldr_cons, mem_insertSorted, ih]
+
+theorem chunksAux_flatten {α : Type} (n : Nat) (hn : 0 < n) (fuel : Nat) (xs : List α)
+    (hf : xs.length ≤ fuel) : (chunksAux n fuel xs).flatten = xs := by
+  induction fuel generalizing xs with
+  | zero =>
+    have : xs = [] := List.eq_nil_of_length_eq_zero (by omega)
+    subst this; simp [chunksAux]
+  | succ f ih =>
+    cases xs with
+    | nil => simp [chunksAux]
+    | cons a as =>
+      simp only [chunksAux, List.flatten_cons]
+      rw [ih]
+      · exact List.take_append_drop n (a :: as)
+      · simp only [List.length_drop, List.length_cons] at hf ⊢
+        omega
+
+theorem chunks_flatten {α : Type} (n : Nat) (hn : 0 < n) (xs : List α) :
+    (chunks n xs).flatten = xs := by
+  unfold chunks
+  have : n ≠ 0 := by omega
+  simp only [this, if_false]
+  exact chunksAux_flatten n hn _ xs (Nat.le_refl _)
+
+theorem mem_chunks {α : Type} (n : Nat) (hn : 0 < n) (xs : List α) (a : α) (h : a ∈ xs) :
+    ∃ c ∈ chunks n xs, a ∈ c := by
+  rw [← chunks_flatten n hn xs, List.mem_flatten] at h
+  exact h
+
+/-! ### `authenticate`: the user record that is inserted -/
+
+theorem addUser_users (w : World) (nick : Str) (u : User) :
+    (w.addUser nick u).users = Map.insert nick u w.users := by
+  unfold World.addUser
+  simp only
+  repeat' split
+  all_goals rfl
+
+/-! ### `max_joins` -/
+
+theorem joinDecide_count (cfg : Cfg) (w : World) (cn : Conn) (nick : Str) (inv : KSet)
+    (chans : List Str) (keys : List (Option Str)) (cnt : Nat) :
+    (joinDecide cfg w cn nick inv chans keys cnt).2.2 =
+      cnt + ((joinDecide cfg w cn nick inv chans keys cnt).1.filter (·.1)).length ∧
+    (∀ mj, cfg.maxJoins = some mj →
+      (joinDecide cfg w cn nick inv chans keys cnt).2.2 ≤ max cnt mj) := by
+  fun_induction joinDecide cfg w cn nick inv chans keys cnt with
+  | case1 => simp; intros; omega
+  | case2 chn rest keys cnt key client join create errs hjc j e hdj cnt' ds es final hrec ih =>
+    rw [hrec] at ih
+    simp only at ih ⊢
+    refine ⟨?_, ?_⟩
+    · rw [ih.1]
+      cases j <;> simp [cnt'] <;> omega
+    · intro mj hmj
+      have h2 := ih.2 mj hmj
+      rw [hmj] at hdj
+      simp only [Prod.mk.injEq] at hdj
+      cases hd : j
+      · simp only [cnt', hd] at h2; simpa using h2
+      · simp only [cnt', hd, if_true] at h2
+        have hlt : cnt < mj := by
+          have := hdj.1; rw [hd] at this; simp at this; exact this.2
+        omega
+
+/-! ## `World.init`: preconfigured channels -/
+
+theorem lookup_foldl_insert {α β : Type} (key : β → Str) (val : β → α) (l : List β) (m0 : Map α)
+    (k : Str) :
+    Map.lookup k (l.foldl (fun m c => Map.insert (key c) (val c) m) m0) =
+      match l.reverse.find? (fun c => key c == k) with
+      | some c => some (val c)
+      | none => Map.lookup k m0 := by
+  induction l generalizing m0 with
+  | nil => simp
+  | cons c cs ih =>
+    simp only [List.foldl_cons, ih, List.reverse_cons, List.find?_append]
+    cases h : cs.reverse.find? (fun c => key c == k) with
+    | some c' => simp
+    | none =>
+      simp only [Option.none_or, List.find?_cons, List.find?_nil]
+      by_cases hk : key c = k
+      · simp [hk]
+      · have hb : (key c == k) = false := by simp [hk]
+        simp [hb, Map.lookup_insert_ne k (key c) (val c) m0 hk]
 
 end Irc.C20
